@@ -288,6 +288,10 @@ class CollectionSummaryManager:
                     self._tables.dimensions[dimension],
                     *[{self._collectionKeyName: collection.key, dimension: v} for v in values],
                 )
+        if self._caching_context.collection_summaries is not None:
+            # A cached summary for this collection is now out of date; drop it
+            # so that it is read again instead of hiding the new datasets.
+            self._caching_context.collection_summaries.discard([collection.key])
 
     def fetch_summaries(
         self,
